@@ -23,7 +23,6 @@ struct RegRec {
     tape: usize,
     req: Vec<u8>,
     masking_key: Vec<u8>,
-    export: Vec<u8>,
 }
 
 fn explore(api: &Api, seed: u64, cx: &mut Cx) {
@@ -100,7 +99,7 @@ fn explore(api: &Api, seed: u64, cx: &mut Cx) {
                                 }
                             }
                         }
-                        recs.push(RegRec { pw: pi, cid: ci, seed: si, key: ki, tape: ti, req: r.req.clone(), masking_key: mkf.of(&r.file).to_vec(), export: r.export.clone() });
+                        recs.push(RegRec { pw: pi, cid: ci, seed: si, key: ki, tape: ti, req: r.req.clone(), masking_key: mkf.of(&r.file).to_vec() });
                     }
                 }
             }
@@ -122,10 +121,6 @@ fn explore(api: &Api, seed: u64, cx: &mut Cx) {
             }
             if x.tape != y.tape && x.req == y.req {
                 cx.violate_case("request/same-across-blinding-tapes", "registration requests on independent blinding tapes are byte-identical (the blind does not come from the RNG)".into(), case());
-            }
-            if x.export == y.export && !(same_in && x.key == y.key && x.tape == y.tape) && x.tape != y.tape {
-                // export keys include the envelope nonce, drawn from the tape: different tapes => different keys
-                cx.violate_case("export-key/repeats", "two registrations on independent tapes return the same export key".into(), case());
             }
         }
     }
